@@ -108,13 +108,13 @@ def ResRel (a : Nat) (c : Config) (p : Request × Eval) (q : Request × Option W
      | some w => p.2.state = .waiting w)
 
 theorem run_sim (a : Nat) (c : Config) (sc : SCfg) (hc : CfgRel a c sc) (hmax : c.maxIterations = none) :
-    ∀ (fuel : Nat) (s : Eval) (st : SState), s.cfg = c → s.iteration + fuel < 2 ^ 32 → R a s.m st →
+    ∀ (fuel : Nat) (s : Eval) (st : SState), s.cfg = c → R a s.m st →
       Sim (ResRel a c) (Eval.evaluateInternal fuel s) (Machine.run sc fuel st) := by
   intro fuel
   induction fuel with
-  | zero => intro s st _ _ _; trivial
+  | zero => intro s st _ _; trivial
   | succ fuel ih =>
-    intro s st hcfg hit h
+    intro s st hcfg h
     rw [Eval.evaluateInternal, Machine.run]
     unfold Eval.loopBody
     obtain ⟨hb, hR⟩ := endOfExpression_sim a s.m st h
@@ -128,10 +128,6 @@ theorem run_sim (a : Nat) (c : Config) (sc : SCfg) (hc : CfgRel a c sc) (hmax : 
         cases b
         · -- execute one operation
           simp only []
-          have hbump : Eval.bumpIteration s.cfg.mode s.iteration = .ok (s.iteration + 1) := by
-            unfold Eval.bumpIteration; rw [if_pos (by omega)]
-          rw [hbump]
-          simp only [Out.bind_ok]
           rw [hcfg, hmax]
           simp only [Eval.overLimit]
           unfold Eval.evaluateOneOperation
@@ -142,7 +138,7 @@ theorem run_sim (a : Nat) (c : Config) (sc : SCfg) (hc : CfgRel a c sc) (hmax : 
           refine Sim.bind (exec_sim a c sc hc op' hok _ st2 r2) (fun ⟨res, m3⟩ eff hE => ?_)
           cases res <;> cases eff <;> simp only [EffRel] at hE <;> try exact hE.elim
           · -- piece
-            exact ih _ _ rfl (by simp only []; omega) hE
+            exact ih _ _ rfl hE
           · -- incomplete / continue
             simp only [Eval.afterOp]
             rename_i st3
@@ -157,13 +153,13 @@ theorem run_sim (a : Nat) (c : Config) (sc : SCfg) (hc : CfgRel a c sc) (hmax : 
                 simp only []
                 cases b2
                 · simp only [Bool.false_and, Bool.false_eq_true, false_and, ite_false]
-                  exact ih _ _ rfl (by simp only []; omega) hR2
+                  exact ih _ _ rfl hR2
                 · cases hr : m4.result with
                   | nil =>
                     have hp : st4.pieces = [] := (result_nil_iff a m4 st4 hR2).mp hr
                     simp only [hp, List.isEmpty_nil, Bool.not_true, Bool.and_false, ne_eq, not_true_eq_false,
                       and_false, ite_false]
-                    exact ih _ _ rfl (by simp only []; omega) hR2
+                    exact ih _ _ rfl hR2
                   | cons p ps =>
                     have hp : st4.pieces ≠ [] := fun hh => by
                       have := (result_nil_iff a m4 st4 hR2).mpr hh; rw [hr] at this; cases this
@@ -176,7 +172,7 @@ theorem run_sim (a : Nat) (c : Config) (sc : SCfg) (hc : CfgRel a c sc) (hmax : 
             subst el
             simp only [Eval.afterOp]
             refine Sim.bind (afterComplete_sim a c sc hc loc m3 st3 hR3) (fun ⟨m4, extra⟩ st4 hR4 => ?_)
-            exact ih _ _ rfl (by simp only []; omega) hR4
+            exact ih _ _ rfl hR4
           · -- waiting / request
             rename_i w r w' r' st3
             obtain ⟨ew, er, hR3⟩ := hE
@@ -441,7 +437,7 @@ theorem applyAnswer_sim (a : Nat) (c : Config) (sc : SCfg) (hc : CfgRel a c sc) 
     rw [hc.mask, hsa]
     have hty : (absV a v).ty = v.ty := rfl
     rw [hty, ← canon_pat64 a hc.addr v.ty off, ← habs]
-    refine Sim.bind (binaryOf_sim a hc.addr .add (by simp [IsShift]) v rhs hans hvr) (fun r sr ⟨e3, v3⟩ => ?_)
+    refine Sim.bind (binaryOf_sim a hc.addr .add v rhs hans hvr) (fun r sr ⟨e3, v3⟩ => ?_)
     subst e3
     obtain ⟨m3, hp, r3⟩ := push_sim a c hc.caps r v3 m s h
     rw [hp]
@@ -478,55 +474,16 @@ theorem applyAnswer_sim (a : Nat) (c : Config) (sc : SCfg) (hc : CfgRel a c sc) 
 
 /-! ## resuming, whole runs -/
 
-theorem evalInternal_iter_le (fuel : Nat) : ∀ (s : Eval) (r : Request) (s' : Eval),
-    s.cfg.maxIterations = none → s.iteration + fuel < 2 ^ 32 →
-    Eval.evaluateInternal fuel s = .ok (r, s') → s'.iteration ≤ s.iteration + fuel ∧ s'.cfg = s.cfg := by
-  induction fuel with
-  | zero => intro s r s' _ _ h; simp [Eval.evaluateInternal] at h
-  | succ fuel ih =>
-    intro s r s' hmax hit h
-    rw [Eval.evaluateInternal] at h
-    unfold Eval.loopBody at h
-    split at h
-    · obtain ⟨m1, _, h2⟩ := bind_eq_ok h
-      cases h2
-      exact ⟨by simp only []; omega, rfl⟩
-    · obtain ⟨it', hb, h⟩ := bind_eq_ok h
-      have hit' : it' = s.iteration + 1 := by
-        unfold Eval.bumpIteration at hb; rw [if_pos (by omega)] at hb; cases hb; rfl
-      subst hit'
-      simp only [] at h
-      split at h
-      · cases h
-      · obtain ⟨⟨res, m2⟩, _, h⟩ := bind_eq_ok h
-        cases res with
-        | piece =>
-          have := ih _ _ _ (by simpa using hmax) (by simp only []; omega) h
-          simp only [] at this; exact ⟨by omega, this.2⟩
-        | incomplete =>
-          simp only [Eval.afterOp] at h
-          split at h
-          · cases h
-          · have := ih _ _ _ (by simpa using hmax) (by simp only []; omega) h
-            simp only [] at this; exact ⟨by omega, this.2⟩
-        | complete loc =>
-          obtain ⟨⟨m3, extra⟩, _, h⟩ := bind_eq_ok h
-          have := ih _ _ _ (by simpa using hmax) (by simp only []; omega) h
-          simp only [] at this; exact ⟨by omega, this.2⟩
-        | waiting w rq =>
-          cases h
-          exact ⟨by simp only []; omega, rfl⟩
-
 theorem resume_sim (a : Nat) (c : Config) (sc : SCfg) (hc : CfgRel a c sc) (hmax : c.maxIterations = none)
     (fuel : Nat) (ans : Answer) (hans : AnsOk ans) (s : Eval) (w : Waiting) (st : SState)
-    (hcfg : s.cfg = c) (hst : s.state = .waiting w) (hit : s.iteration + fuel < 2 ^ 32) (h : R a s.m st) :
+    (hcfg : s.cfg = c) (hst : s.state = .waiting w) (h : R a s.m st) :
     Sim (ResRel a c) (Eval.resume fuel ans s) (Machine.resume sc fuel w (absAnswer a ans) st) := by
   unfold Eval.resume Machine.resume
   rw [hst]
   simp only []
   rw [hcfg]
   refine Sim.bind (applyAnswer_sim a c sc hc w ans hans s.m st h) (fun m1 st1 r1 => ?_)
-  exact run_sim a c sc hc hmax fuel _ st1 rfl hit r1
+  exact run_sim a c sc hc hmax fuel _ st1 rfl r1
 
 /-- a scripted answer the theorem speaks about -/
 def TokOk (t : Eval.Tok) : Prop := VOk t.value ∧ t.bytes.length < 2 ^ 63
@@ -564,19 +521,19 @@ theorem finRel_of_sim {α β} {Rr : α → β → Prop} (a : Nat) {x : Out α} {
 
 theorem runFrom_sim (a : Nat) (c : Config) (sc : SCfg) (hc : CfgRel a c sc) (hmax : c.maxIterations = none)
     (fuel : Nat) : ∀ (toks : List Eval.Tok) (r : Request) (s : Eval) (ow : Option Waiting) (st : SState),
-      (∀ t ∈ toks, TokOk t) → s.cfg = c → s.iteration + toks.length * fuel < 2 ^ 32 → R a s.m st →
+      (∀ t ∈ toks, TokOk t) → s.cfg = c → R a s.m st →
       (match ow with | none => s.state = .complete | some w => s.state = .waiting w) →
       RunRel a (Eval.runFrom fuel toks r s) (Machine.runFrom sc fuel (absScript a toks) r ow st) := by
   intro toks
   induction toks with
   | nil =>
-    intro r s ow st _ hcfg _ h _
+    intro r s ow st _ hcfg h _
     cases r <;> cases ow <;>
       first
       | (right; exact ⟨rfl, h.pieces.symm, h.value.symm⟩)
       | (right; exact ⟨rfl, trivial⟩)
   | cons t toks ih =>
-    intro r s ow st htoks hcfg hit h hst
+    intro r s ow st htoks hcfg h hst
     by_cases hr : r = .complete
     · subst hr
       right
@@ -586,12 +543,8 @@ theorem runFrom_sim (a : Nat) (c : Config) (sc : SCfg) (hc : CfgRel a c sc) (hma
         left
         cases r <;> first | exact (hr rfl).elim | rfl
       | some w =>
-        have hit1 : s.iteration + fuel < 2 ^ 32 := by
-          simp only [List.length_cons] at hit
-          have : fuel ≤ (toks.length + 1) * fuel := Nat.le_mul_of_pos_left fuel (by omega)
-          omega
         have hsim := resume_sim a c sc hc hmax fuel (Eval.answerFor r t) (answerFor_ok r t (htoks t (by simp)))
-          s w st hcfg hst hit1 h
+          s w st hcfg hst h
         have hM : Eval.runFrom fuel (t :: toks) r s =
             (match Eval.resume fuel (Eval.answerFor r t) s with
              | .ok (r', s') => (match Eval.runFrom fuel toks r' s' with | (tr, f, e) => (r :: tr, f, e))
@@ -613,15 +566,7 @@ theorem runFrom_sim (a : Nat) (c : Config) (sc : SCfg) (hc : CfgRel a c sc) (hma
             obtain ⟨e1, hR', hcfg', hst'⟩ := hsim
             simp only [] at e1 hR' hcfg' hst'
             subst e1
-            have hle : s'.iteration ≤ s.iteration + fuel := by
-              unfold Eval.resume at hx
-              rw [hst] at hx
-              obtain ⟨m1, _, hx2⟩ := bind_eq_ok hx
-              exact (evalInternal_iter_le fuel _ _ _ (by simp only []; rw [hcfg]; exact hmax) (by simpa using hit1) hx2).1
-            have hit2 : s'.iteration + toks.length * fuel < 2 ^ 32 := by
-              simp only [List.length_cons, Nat.add_mul, Nat.one_mul] at hit
-              omega
-            have := ih r'' s' w' st' (fun t' ht' => htoks t' (by simp [ht'])) hcfg' hit2 hR' hst'
+            have := ih r'' s' w' st' (fun t' ht' => htoks t' (by simp [ht'])) hcfg' hR' hst'
             simp only []
             rcases this with hu | ⟨he, hf⟩
             · left; exact hu
@@ -653,7 +598,7 @@ theorem runFrom_sim (a : Nat) (c : Config) (sc : SCfg) (hc : CfgRel a c sc) (hma
 
 theorem start_sim (a : Nat) (c : Config) (sc : SCfg) (hc : CfgRel a c sc) (hmax : c.maxIterations = none)
     (fuel : Nat) (toks : List Eval.Tok) (htoks : ∀ t ∈ toks, TokOk t) (s0 : Eval) (st0 : SState)
-    (hcfg : s0.cfg = c) (hit : s0.iteration + (toks.length + 1) * fuel < 2 ^ 32) (h : R a s0.m st0) :
+    (hcfg : s0.cfg = c) (h : R a s0.m st0) :
     RunRel a
       (match Eval.evaluateInternal fuel s0 with
        | .ok (r, s') => Eval.runFrom fuel toks r s'
@@ -661,10 +606,7 @@ theorem start_sim (a : Nat) (c : Config) (sc : SCfg) (hc : CfgRel a c sc) (hmax 
       (match Machine.run sc fuel st0 with
        | .ok (r, w, s) => Machine.runFrom sc fuel (absScript a toks) r w s
        | o => ([], Machine.finalOf o)) := by
-  have hit1 : s0.iteration + fuel < 2 ^ 32 := by
-    have : fuel ≤ (toks.length + 1) * fuel := Nat.le_mul_of_pos_left fuel (by omega)
-    omega
-  have hsim := run_sim a c sc hc hmax fuel s0 st0 hcfg hit1 h
+  have hsim := run_sim a c sc hc hmax fuel s0 st0 hcfg h
   cases hx : Eval.evaluateInternal fuel s0 with
   | ok p =>
     obtain ⟨r, s'⟩ := p
@@ -676,11 +618,7 @@ theorem start_sim (a : Nat) (c : Config) (sc : SCfg) (hc : CfgRel a c sc) (hmax 
       obtain ⟨e1, hR', hcfg', hst'⟩ := hsim
       simp only [] at e1 hR' hcfg' hst'
       subst e1
-      have hle := (evalInternal_iter_le fuel s0 _ _ (by rw [hcfg]; exact hmax) hit1 hx).1
-      have hit2 : s'.iteration + toks.length * fuel < 2 ^ 32 := by
-        simp only [Nat.add_mul, Nat.one_mul] at hit
-        omega
-      exact runFrom_sim a c sc hc hmax fuel toks r'' s' w' st' htoks hcfg' hit2 hR' hst'
+      exact runFrom_sim a c sc hc hmax fuel toks r'' s' w' st' htoks hcfg' hR' hst'
     | err e => rw [hy] at hsim; exact hsim.elim
     | panic wy => left; rfl
     | diverge => rw [hy] at hsim; exact hsim.elim
@@ -756,7 +694,7 @@ theorem run_refines (a : Nat) (ha : AddrSize a) (e : Endian) (enc : Encoding) (h
     (mode : Mode) (code : Bytes) (hlen : code.length < 2 ^ 63) (init obj : Option Nat)
     (hinit : ∀ v, init = some v → v < 2 ^ 64) (hobj : ∀ v, obj = some v → v < 2 ^ 64)
     (fuel : Nat) (toks : List Eval.Tok) (htoks : ∀ t ∈ toks, TokOk t)
-    (hfuel : (toks.length + 1) * fuel < 2 ^ 32) (s : Eval)
+    (s : Eval)
     (hnew : Eval.new e enc {} mode code init obj none = .ok s) :
     RunRel a (Eval.run fuel toks s) (Machine.runAll ⟨e, enc, obj⟩ fuel (absScript a toks) code init) := by
   rw [new_ok a ha e enc henc mode code init obj] at hnew
@@ -767,7 +705,7 @@ theorem run_refines (a : Nat) (ha : AddrSize a) (e : Endian) (enc : Encoding) (h
   have hsa := sc_a a _ _ hc
   rw [run_of_start fuel toks _ init rfl rfl]
   unfold Machine.runAll Machine.initial
-  refine start_sim a _ _ hc rfl fuel toks htoks _ _ rfl (by simp only []; omega) ?_
+  refine start_sim a _ _ hc rfl fuel toks htoks _ _ rfl ?_
   simp only [List.append_nil]
   cases init with
   | none =>
